@@ -17,6 +17,8 @@ pub mod c11;
 pub mod c12;
 #[cfg(feature = "utf16")]
 pub mod c14;
+#[cfg(feature = "utf16")]
+pub mod u16mon;
 pub mod c15;
 #[cfg(feature = "pattern")]
 pub mod c20;
@@ -43,6 +45,10 @@ pub fn run(cfg: &Cfg, rep: &mut Report) -> Result<(), String> {
         "c05" => c05::run(cfg, rep),
         #[cfg(feature = "utf16")]
         "c14" => c14::run(cfg, rep),
+        #[cfg(feature = "utf16")]
+        "c09u16" => u16mon::run(cfg, rep, u16mon::Mode::Iter),
+        #[cfg(feature = "utf16")]
+        "c05u16" => u16mon::run(cfg, rep, u16mon::Mode::Steps),
         "c15" => c15::run(cfg, rep),
         #[cfg(feature = "pattern")]
         "c20" => c20::run(cfg, rep),
